@@ -222,7 +222,8 @@ fn check_any(c: &AnyRule, deep: bool, cnt: &mut Counts) -> Result<(), String> {
 fn metric_items(thorough: bool) -> Vec<MetricItem> {
     let big = [0u64, 1, u32::MAX as u64, u32::MAX as u64 + 1, u64::MAX];
     let mut v = vec![];
-    for (ni, name) in NAMES.iter().chain(["", "x\ny"].iter()).enumerate() {
+    // separators at the start, at the end, doubled and alone
+    for (ni, name) in NAMES.iter().chain(["", "x\ny", "svc|", "|svc", "a||b", "|", "||", "资源||"].iter()).enumerate() {
         for ts in [0u64, 1, T0_MS, 253_402_300_799_000] {
             for rt in 0..=6u8 {
                 if !thorough && (ni as u8 + rt) % 3 != 0 {
